@@ -234,6 +234,14 @@ class PyRaise(Exception):
         self.line = line
 
 
+INTERNED_STRINGS = set()  # string literals encoded as constants of the opaque sort; distinct literals denote distinct values
+
+
+def interned_distinct():
+    cs = [z3.Const('str_' + v, U) for v in sorted(INTERNED_STRINGS)] + [z3.Const('const_None', U)]
+    return [z3.Distinct(*cs)] if len(cs) > 1 else []
+
+
 def to_z3(v, t=None):
     """encode a Python-level value as a z3 term of sort_of(t) (t may be None for scalars)"""
     if t == 'bv64':
@@ -259,6 +267,7 @@ def to_z3(v, t=None):
         return z3.RealVal(repr(v))
     if isinstance(v, str):
         if t == 'U':
+            INTERNED_STRINGS.add(v)
             return z3.Const('str_' + v, U)
         return z3.StringVal(v)
     if isinstance(v, bytes):
@@ -694,7 +703,7 @@ class Engine:
         self.obl_count += 1
         info = dict(info)
         info['trace'] = ' > '.join(st.trace[-12:])
-        o = valid('%s/%s' % (self.label, name), list(st.pc), goal, kind=kind, **info)
+        o = valid('%s/%s' % (self.label, name), list(st.pc) + interned_distinct(), goal, kind=kind, **info)
         self.ctx.add(o, replay=getattr(self, 'replayer', None))
         return o
 
@@ -989,7 +998,7 @@ class Engine:
                 s2.trace.append('L%d:F' % node.lineno)
                 outs.extend(self.exec_block(node.orelse, s2))
             return outs
-        if isinstance(node, (ast.For, ast.While)):
+        if isinstance(node, (ast.For, ast.While, ast.AsyncFor)):
             return self.exec_loop(node, st)
         if isinstance(node, ast.Try):
             return self.exec_try(node, st)
@@ -1106,7 +1115,7 @@ class Engine:
                     spec = v_
         if spec is None:
             raise Undecided('loop #%d (%s) of %s has no invariant' % (ordinal, _header_text(node), self.c.qualname))
-        is_for = isinstance(node, ast.For)
+        is_for = isinstance(node, (ast.For, ast.AsyncFor))
         L = None
         if is_for:
             it = self.ev(node.iter, st)
@@ -1531,6 +1540,12 @@ class Engine:
             return self.is_none(b if a is None else a)
         if isinstance(a, (bool, int, str, float, bytes)) and isinstance(b, (bool, int, str, float, bytes)):
             return z3.BoolVal(a == b)
+        if isinstance(a, SMap) and isinstance(b, SMap):
+            q = z3.Const(fresh_name('eq_k'), sort_of(a.kt))
+            same_keys = z3.ForAll([q], z3.Select(a.has, q) == z3.Select(b.has, q))
+            if a.vt == 'bool' and b.vt == 'bool':
+                return same_keys  # sets
+            return z3.And(same_keys, z3.ForAll([q], z3.Implies(z3.Select(a.has, q), z3.Select(a.val, q) == z3.Select(b.val, q))))
         if isinstance(a, SList) and isinstance(b, SList):
             j = z3.Int(fresh_name('eq_j'))
             if a.et is None or b.et is None:
@@ -1566,7 +1581,9 @@ class Engine:
             return z3.BoolVal(x in cont.fields)
         if isinstance(cont, dict):
             cont = tuple(cont.keys())
-        if isinstance(cont, (tuple, frozenset, list)) and not (cont and cont[0] == 'range'):
+        if isinstance(cont, frozenset):
+            cont = tuple(sorted(cont, key=repr))
+        if isinstance(cont, (tuple, list)) and not (cont and cont[0] == 'range'):
             return z3.Or(*[self.equal(x, y) for y in cont]) if cont else z3.BoolVal(False)
         if isinstance(cont, SList):
             j = z3.Int(fresh_name('in_j'))
@@ -1852,6 +1869,31 @@ class Engine:
         et = type_of_value(v)
         return SList(it.len, z3.Lambda([i], to_z3(v, et)), et)
 
+    def ev_SetComp(self, node, st):
+        """{e(x) for x in xs} over a symbolic list: the set of the element images (cardinality only bounded by len(xs))"""
+        if len(node.generators) != 1 or node.generators[0].ifs or node.generators[0].is_async:
+            raise Undecided('set comprehension with filters/multiple generators')
+        g = node.generators[0]
+        it = self.ev(g.iter, st)
+        if not isinstance(it, SList):
+            raise Undecided('set comprehension over %s' % ast.unparse(g.iter))
+        size = z3.Int(fresh_name('setcomp.size'))
+        k = z3.Const(fresh_name('sc_k'), U)
+        if it.et is None:
+            return SMap(z3.K(U, z3.BoolVal(False)), z3.K(U, z3.BoolVal(True)), z3.IntVal(0), 'U', 'bool')
+        i = z3.Int(fresh_name('sc_i'))
+        s2 = st.fork()
+        self.assign(g.target, from_z3(z3.Select(it.arr, i), it.et), s2)
+        was = getattr(self, 'in_spec', False)
+        self.in_spec = True
+        try:
+            v = self.ev(node.elt, s2)
+        finally:
+            self.in_spec = was
+        has = z3.Lambda([k], z3.Exists([i], z3.And(0 <= i, i < it.len, to_z3(v, 'U') == k)))
+        st.assume(z3.And(size >= 0, size <= it.len))
+        return SMap(has, z3.K(U, z3.BoolVal(True)), size, 'U', 'bool')
+
     def ev_JoinedStr(self, node, st):
         if not self.c.strings:
             return z3.Const(fresh_name('fstring'), U)
@@ -1931,6 +1973,21 @@ class Engine:
             if len(g.generators) != 1 or g.generators[0].ifs or g.generators[0].is_async:
                 raise Undecided('all/any over a filtered or nested generator')
             it = self.ev(g.generators[0].iter, st)
+            if isinstance(it, SMap) or (isinstance(it, tuple) and len(it) == 2 and it[0] in ('mapvalues', 'mapkeys')):
+                # all/any over the keys / values of a finite map: quantify over the key
+                m = it if isinstance(it, SMap) else it[1]
+                q = z3.Const(fresh_name('gen_k'), sort_of(m.kt))
+                s2 = st.fork()
+                elem = from_z3(z3.Select(m.val, q), m.vt) if (isinstance(it, tuple) and it[0] == 'mapvalues') else from_z3(q, m.kt)
+                self.assign(g.generators[0].target, elem, s2)
+                was = getattr(self, 'in_spec', False)
+                self.in_spec = True
+                try:
+                    body = self.truthy(self.ev(g.elt, s2))
+                finally:
+                    self.in_spec = was
+                rng = z3.Select(m.has, q)
+                return z3.ForAll([q], z3.Implies(rng, body)) if fname == 'all' else z3.Exists([q], z3.And(rng, body))
             if not isinstance(it, SList):
                 raise Undecided('all/any over %s' % ast.unparse(g.generators[0].iter))
             if it.et is None:
@@ -2174,6 +2231,14 @@ class Engine:
     def call_method(self, recv, meth, node, st):
         args = [self.ev(a, st) for a in node.args]
         target = node.func.value
+        if isinstance(recv, SMap) and meth in ('values', 'keys') and not args:
+            return ('map' + meth, recv)
+        if isinstance(recv, SMap) and meth == 'get' and args:
+            k = to_z3(args[0], recv.kt)
+            dflt = args[1] if len(args) > 1 else None
+            if recv.vt != 'U' and dflt is None:
+                raise Undecided('.get() with a None default on a map of %s' % type_key(recv.vt))
+            return from_z3(z3.If(z3.Select(recv.has, k), z3.Select(recv.val, k), to_z3(dflt, recv.vt)), recv.vt)
         if isinstance(recv, SMap) and meth == 'add' and len(args) == 1:
             self.assign(target, self.store(recv, args[0], True if recv.vt == 'bool' else args[0], st, node), st)
             return None
